@@ -108,11 +108,13 @@ def initStates (km : KModel α) (spec : ParamSpec) (lay : List (Nat × Nat)) (pa
     let buf ← fill 0 rows (List.replicate (n * w) Num.zero)
     pure (chunks w n buf)
 
-/-- what the goroutine of cell `i` does: decode its parameter column, take input block `i % nBlocks`, run the kernel
+/-- what the goroutine of cell `i` does: compute `i % nBlocks` (its FIRST statement: with no input block that is Go's
+integer-divide-by-zero panic), decode its parameter column, take input block `i % nBlocks`, run the kernel
 on its state row, write the outputs into the first timesteps of its output rows and the states into its state row -/
 def cellStep (km : KModel α) (spec : ParamSpec) (lay : List (Nat × Nat)) (params : List (List α))
     (inputs : List (List (List α))) (i : Nat) (st : List α) (orow : List (List α)) :
-    Except String (List α × List (List α)) := do
+    Except String (List α × List (List α)) :=
+  if inputs.length = 0 then .error "int-div-zero" else do
   let p ← cellParams spec lay params i
   let ins := inputs[i % inputs.length]?.getD []
   let r ← km.run p ins st
@@ -138,7 +140,7 @@ def run (km : KModel α) (spec : ParamSpec) (x : RunIn α) : Except String (RunO
   let states ← match x.states with
     | some s => pure s
     | none => initStates km spec lay x.params x.nCells
-  if x.inputs.length = 0 then .error "int-div-zero" else
+  -- no input block: every goroutine panics in `i % numInputSequences` (`cellStep`); with 0 cells nothing runs, no panic
   let (ss, os) ← runCells km spec lay x.params x.inputs 0 states x.outputs
   pure { outputs := os, states := ss }
 
